@@ -1,4 +1,5 @@
 import HapVerif.Model.C10
+import HapVerif.Generated.Facts
 import HapVerif.Drv.Common
 /-! Line-protocol driver of C10: parses the world of a case line (grammar: harness/cmd/hv/c10.go),
 runs the model, compares its canonical text with the implementation's, parses the implementation's
@@ -173,14 +174,17 @@ def parseObs (s : String) : Option Obs :=
     pure { paths := hs.flatten, backends := bs, tcps := ts }
   | _ => none
 
+/-- which variant of `syncTCPRouteGateway` the current source tree has (regenerated fact) -/
+def currentFixed : Bool := Facts.c10TcpProtocolChecked
+
 /-- `w <ver> <classes> <nss> <gws> <routes> <svcs>` -/
-def handle (args : List String) (impl : String) : Verdict :=
+def handleWith (fx : Bool) (args : List String) (impl : String) : Verdict :=
   match args with
   | ["w", _ver, cls, nss, gws, routes, svcs] =>
     match parseWorld cls nss gws routes svcs with
     | none => bad "C10-world"
     | some w =>
-      let st := sync w
+      let st := sync fx w
       let m := render st
       if impl.startsWith "PANIC" then { model := m, agree := false, oracle := some "panic" } else
       match parseObs impl with
@@ -189,5 +193,7 @@ def handle (args : List String) (impl : String) : Verdict :=
         { model := m, agree := m = impl, oracle := oracle w o,
           trivial := st.backends.isEmpty }
   | _ => bad "C10"
+
+def handle (args : List String) (impl : String) : Verdict := handleWith currentFixed args impl
 
 end HapVerif.C10
